@@ -347,9 +347,7 @@ fn c04_task(rep: &mut Report, l: usize, fk: usize, task: &T4) {
                 let ib = b - 2;
                 let mut n = 0u64;
                 for start in 0..=nb - b {
-                    if start % 64 == 0 {
-                        watch_enter(id);
-                    }
+                    watch_enter(id);
                     for &pat in &patterns {
                         flip(&mut buf, start);
                         flip(&mut buf, start + b - 1);
